@@ -120,7 +120,7 @@ class EventDispatcher:
         """
         self._remove_weak_handler(_HandlerRef(handler))
 
-    def dispatch(self, event_name: str, *args, **kwargs):
+    def dispatch(self, event_name: str, /, *args, **kwargs):
         """Broadcast an event to all registered listeners.
 
         Additional parameters are passed to each handler's callback.
